@@ -532,7 +532,17 @@ class Gen:
             self.gen_file(p, depth + 1, budget)
         written = (written_base + pattern) if relative else \
             os.path.join(base, pattern)
-        return ('include', written, paths, os.path.join(base, pattern))
+        pre = []
+        if u % 3 == 0 and not relative:
+            # a second pattern on the same line, written first although its
+            # path sorts last: patterns are read in the order written
+            sub2 = f'{os.path.basename(self.root)}zzinc{u}'
+            os.makedirs(os.path.join(base, sub2), exist_ok=True)
+            p2 = os.path.join(base, sub2, f'first{u}.conf')
+            self.gen_file(p2, depth + 1, budget)
+            pre = [p2]
+            written = p2 + rng.choice([' ', '  ', '\t']) + written
+        return ('include', written, paths, os.path.join(base, pattern), pre)
 
     # -- rendering
 
@@ -708,6 +718,8 @@ class Ref:
                     paths = it[2]
                     if self.glob_order is not None and len(paths) > 1:
                         paths = self.glob_order(it[3], paths)
+                    if len(it) > 4:
+                        paths = list(it[4]) + list(paths)
                     for p in paths:
                         self.hits['include'] += 1
                         self.run(p, True)
@@ -1150,6 +1162,36 @@ def check_client(gen, kind, main, target, feats, defaults, mon, viol, info,
                      'detail': f'a Match line that is reached asks for a '
                                f'final pass but has_match_final() is False; '
                                f'target {tdesc}; files: {show()}'})
+    # The same request made through an options object that is being reused
+    # (it carries another user name and port from an earlier use, nothing
+    # from a file): the user and port asked for now are the ones the file
+    # is evaluated for, so the outcome equals the fresh one
+    if target.get('user') is not None and target.get('port') is not None \
+            and not cfg.has_match_final():
+        try:
+            base = SSHClientConfig.load(None, [], False, False, False,
+                                        LOCAL_USER, 'previous-user',
+                                        target['host'], 20022)
+            again = SSHClientConfig.load(base, [main], False, False, False,
+                                         LOCAL_USER, target['user'],
+                                         target['host'], target['port'])
+            mon['reused_options_compared'] = \
+                mon.get('reused_options_compared', 0) + 1
+            if again.get_options(False) != cfg.get_options(False):
+                diff = {k: (cfg.get(k), again.get(k))
+                        for k in set(cfg.get_options(False)) |
+                        set(again.get_options(False))
+                        if cfg.get(k) != again.get(k)}
+                viol.append({
+                    'mechanism': 'reused_options_resolution_differs',
+                    'detail': f'options built on an object that carried '
+                              f'another user / port resolve differently '
+                              f'(fresh, reused): {diff}; target {tdesc}; '
+                              f'files: {show()}'})
+        except Exception as exc:        # pylint: disable=broad-except
+            viol.append({'mechanism': 'reused_options_resolution_differs',
+                         'detail': f'{type(exc).__name__}: {exc}; {tdesc}'})
+
     mon['host_blocks_hit'] += ref.hits['host']
     mon['match_blocks_hit'] += ref.hits['match']
     mon['includes_followed'] += ref.hits['include']
